@@ -65,3 +65,19 @@ Proof.
     repeat constructor; vm_compute; try discriminate; reflexivity.
   - vm_compute. reflexivity.
 Qed.
+
+(* the exact size of an Actor payload: 3 + |name| + sum over segments of (26 + |segment name|);
+   hence the 1024-byte limit holds exactly when that sum allows it — K01 is every Actor beyond *)
+Definition seg_cost (s : list Z * list Z) : Z := 26 + lenb (fst s).
+Lemma lenb_segs_exact segs : Forall (fun s => length (snd s) = 6%nat) segs ->
+  lenb (flat_map (fun s : list Z * list Z => be16 (lenb (fst s)) ++ fst s ++ flat_map be32 (snd s)) segs)
+  = fold_right (fun s acc => seg_cost s + acc) 0 segs.
+Proof.
+  induction 1 as [|s segs Hw _ IH]; [reflexivity|].
+  cbn [flat_map fold_right]. rewrite !lenb_app, lenb_be16, lenb_words, IH. unfold seg_cost, lenb at 2. rewrite Hw. lia.
+Qed.
+Theorem actor_size_exact n segs : Forall (fun s => length (snd s) = 6%nat) segs -> (length segs < 256)%nat ->
+  lenb (enc_payload (PActor n segs)) = 3 + lenb n + fold_right (fun s acc => seg_cost s + acc) 0 segs.
+Proof.
+  intros Hs Hl. cbn [enc_payload]. rewrite !lenb_app, lenb_be16, lenb_cons, lenb_nil, (lenb_segs_exact segs Hs). lia.
+Qed.
